@@ -73,9 +73,9 @@ claim("C11", "other", "def-use / backward-slice and dominance rules on the MIR o
       "Decides the structural clauses of 'include = paste': the nested parse context shares the includer's segments, macros, messages and symbol context (Rc clones of handle structs, never fresh objects) at both hops; directories added by .includepath inside an included file reach the includer's set at every hop (sharing or write-back after the nested parse); a file that cannot be opened is an error whose message is built from the looked-up path; .exit yields a mode that only ends the current line loop and .include leaves the mode alone; caller directories, the file's own directory and a (joined-when-relative) .includepath argument flow into the searched set and the path as written is tried first. Level 'other': which file wins among several, CWD behaviour, symlinks and I/O errors are runtime configuration, not decided.",
       "Trusted: rustc MIR and callee resolution.", engine="E0+E1+E3")
 
-claim("C14", "other", "structural rules on the PEG grammar AST (own rust-peg reader cross-checked against the compiled parser's MIR), lower-case typestate on keyword lookups, resolved callee of the line splitter",
-      "Every meaningless respelling named by C14 needs a tolerant spot in the grammar or lexer; each spot is decided as a necessary condition: both blank kinds in space(), space() around every infix token, inside parentheses/calls, around the comma, between label/mnemonic/operands/comment; the three comment forms after every content-bearing line form and on their own; both letter cases in the register and hex-digit classes; lower-casing before the mnemonic, directive, register and function-name lookups; str::lines for LF/CRLF; radix forms under C05. Level 'other': arbitrary combinations of respellings (PEG ordered-choice interactions) are not decided.",
-      "Out of scope (avrasm itself is strict there): blank after a prefix operator, around the '+' of Y+q, before a label, upper-case 0X/0B and directive names.", engine="E0+E2+E4")
+claim("C14", "other", "matching of generated layout variants against the project's PEG grammar (own rust-peg reader and matcher, cross-checked against the compiled parser's MIR), lower-case typestate on keyword lookups, resolved callee of the line splitter",
+      "Blanks, tabs and comments: ~80 line forms (every infix and prefix operator of the precedence table, every pointer form, the directive operand forms, labels) are spelled with every filling of their gaps (nothing, blank, tab, runs), every indentation, trailing blanks and 8 families of trailing comments, and each spelling must be matched by line() through the same alternatives with the same captured texts as the tightest one (~5000 matches; nothing of the repository runs, the grammar text is interpreted with rust-peg's ordered-choice / precedence-climbing semantics). Case: both letter cases in the register and hex-digit classes; lower-casing before the mnemonic, directive, register and function-name lookups. Line ends: str::lines for LF/CRLF; radix forms under C05. Level 'other': the line forms are a finite family, arbitrary nestings of them are not enumerated.",
+      "Out of scope: /* */ comments that span lines, upper-case 0X/0B and directive names.", engine="E0+E2+E4")
 
 claim("C15", "other", "error-discipline analysis over resolved MIR: every error exit with a CodePoint in scope (dominating definition) is classified by its format arguments / `?` source, attribution solved as a greatest fixpoint over the call graph; path rules by abstract interpretation for line numbers and .message/.warning/.error; move/clone-only flow of the message list",
       "Error sites are finite and enumerable from MIR although the inputs reaching them are not: ~75 bail! sites and ~100 `?` sites are classified; in a function that knows the current item's line every error must carry it, and `?` is accepted only from callees all of whose exits are attributed (root causes are reported, cascades are not). CodePoint line = iterator index + 1 over lines().enumerate(); .error has no Ok path, .message/.warning push exactly one string with their line and do nothing else; the message list is handed parse -> pass 0 -> 1 -> 2 -> BuildResult by move/clone only. Level 'other': that the *right* line is named when a fault surfaces in a later pass than it was written is not decided.",
@@ -87,18 +87,18 @@ claim("C16", "other", "site-discipline analysis over callee-resolved dev-profile
 
 # added while building (DESIGN.md §9.3): appended to the level texts above
 ADDED = {
-    "C01": " Also decided: recognition (each of the 114 mnemonics, 64 register spellings, the pointer names and the four addressing forms is matched with the grammar under PEG semantics and must map, through the strum from_str tables read from MIR, to the enum value the encoder row is keyed on) and glue (parsed mnemonic and operands -> Instruction item unchanged; encoder bytes -> fragment -> code -> BuildResult.code as a def-use chain).",
+    "C01": " Also decided: recognition (each of the 114 mnemonics, 64 register spellings, the pointer names and the four addressing forms is matched with the grammar under PEG semantics and must map, through the strum from_str tables read from MIR, to the enum value the encoder row is keyed on) and glue (parsed mnemonic and operands -> Instruction item unchanged; encoder bytes -> fragment -> code -> BuildResult.code as a def-use chain). The reduced core is a second view of every row: on paths that may run with Avr8l set, r16..r31 must all be accepted; the devices whose shipped part file declares that core carry the flag.",
     "C02": " Also decided: .org/.byte never drop an operand silently (one recorded known finding), the exact effect of the segment directives on the segment list (an .org just stored survives), and that segments opened while splicing a macro expansion carry the expanded segment's own address and type.",
-    "C03": " Findings about the displacement term are required on every success path (a term adjusted on the way is reported); the pc rule is stated per round of the item loop.",
-    "C04": " Also decided: the language of the grammar's register rules is exactly the register names (r0..r31, x/y/z, either case).",
-    "C05": " Also decided: strict evaluation (a value only after every operand evaluated), a bound identifier fails only through its definition or the nesting limit, character constants are not narrowed in the compiled action.",
+    "C03": " Findings about the displacement term are required on every success path (a term adjusted on the way is reported); the pc rule is stated per round of the item loop; a target named like a register (r16_loop) is matched as the symbol it is.",
+    "C04": " Also decided: the language of the grammar's register rules is exactly the register names (r0..r31, x/y/z, either case); on a reduced core (paths that may run with Avr8l set) every register operand accepts r16..r31 only.",
+    "C05": " Also decided: strict evaluation (a value only after every operand evaluated), a bound identifier fails only through its definition or the nesting limit, character constants are not narrowed in the compiled action, an operand that is a symbol named like a register (r1x, -zero) is matched as that symbol.",
     "C06": " Also decided: the length model Operand::len equals the bytes emitted; the fragment pass 2 returns is only ever appended to; a character constant operand keeps its full code point.",
     "C07": " Also decided: completeness (every chunk taken from the image becomes a Data record on every path) and that the writers, seen as a family with their local helpers, create or truncate the file they write.",
     "C08": " A branch of skip on the text of a line through anything but the line parser is treated as taken by lines of any class.",
     "C09": " Also decided: nested binary expressions keep their parentheses (flattening only on the left), headers of the segments opened while splicing, the first-segment decision compares with the output's last segment, every plain item is handed on once and unchanged.",
     "C10": " Also decided: the pass branches on the label insert's own result, pass 2's item loop runs for every segment, a label on any kind of line is bound before the rest of the line.",
     "C11": " Also decided: the nested context carries the location that was opened, the file's own directory is added on every path, the included file inherits the includer's directories, the whole text read from the opened file is what is parsed, no Ok before the parser ran.",
-    "C12": " Also decided: the RAM figure is the extent of the data segment and is handed on unchanged; the .device clause (unknown name, second selection, stored row, operand).",
+    "C12": " Also decided: the RAM figure is the extent of the data segment and is handed on unchanged; the .device clause (unknown name, second selection, stored row, operand, exactly one name); every line of every shipped include file is a line of the grammar.",
     "C14": " Also decided: symbol- and macro-table keys are lower-cased; layering rules — nothing in the line pipeline inspects raw line text except through the grammar's code_part rule, whose shape is checked.",
     "C16": " Cycles that re-enter with looked-up or produced values need a shared work budget (fan-out rule).",
     "C18": " The writers are analysed as a family with their local helpers; buffered writers need a checked flush.",
